@@ -2,6 +2,7 @@ import XoGen.Src.ToSlotSize
 import XoGen.Src.Align
 import Xo.Model.Layout
 import Xo.Model.Alloc
+import Xo.Lemmas.Alloc
 /-! The source of `_to_slot_size` (typeutils.py) and `_align` (context.py), translated from /repo on this run, IS the
 model's `slot` / `alignUp`. -/
 namespace XoGen
@@ -62,5 +63,17 @@ theorem src_align (o k : Nat) : align (o : Int) ((2 ^ k : Nat) : Int) = (Alloc.a
   rw [this]
   unfold Alloc.alignUp
   simp only [Nat.and_two_pow_sub_one_eq_mod]
+
+/-- what the source's `_align` computes, stated outright: for an alignment that is a power of two it returns the LEAST multiple of the
+alignment that is not below the offset (a multiple of the alignment, at least the offset, below every other such multiple) -/
+theorem src_align_least (o k : Nat) :
+    ∃ r : Nat, align (o : Int) ((2 ^ k : Nat) : Int) = (r : Int) ∧ r % 2 ^ k = 0 ∧ o ≤ r ∧
+      ∀ x, x % 2 ^ k = 0 → o ≤ x → r ≤ x :=
+  ⟨Alloc.alignUp o (2 ^ k), src_align o k, Alloc.alignUp_dvd o k, Alloc.alignUp_ge o k, fun x hx hge => Alloc.alignUp_least o k x hx hge⟩
+
+/-- what the source's `_to_slot_size` computes, stated outright: the least multiple of 8 that is not below the size -/
+theorem src_slot_least (n : Nat) :
+    ∃ r : Nat, to_slot_size (n : Int) = (r : Int) ∧ r % 8 = 0 ∧ n ≤ r ∧ r < n + 8 := by
+  refine ⟨Lay.slot n, src_to_slot_size n, ?_, ?_, ?_⟩ <;> unfold Lay.slot <;> omega
 
 end XoGen
